@@ -262,12 +262,12 @@ class Check:
         chunks = [events] if not chunk else [events[i:i + chunk] for i in range(0, len(events), chunk)]
         if weight is not None:  # split by cumulative weight (e.g. number of logged points)
             chunks, cur, acc = [], [], 0
-            for ev in events:
-                cur.append(ev)
-                acc += weight(ev)
-                if acc >= budget:
+            for ev in events:  # never split the events of one trace id over two runs
+                if acc >= budget and cur and ev.get("tid") != cur[-1].get("tid"):
                     chunks.append(cur)
                     cur, acc = [], 0
+                cur.append(ev)
+                acc += weight(ev)
             if cur:
                 chunks.append(cur)
         for ci, evs in enumerate(chunks):
